@@ -562,6 +562,20 @@ def observe(ctx, mtype, body, neg, name, L=None):
         out = ('decoded', shape)
         if not ctx.sym:
             ctx.witness_check('api-renders', lambda: api_render(msg, neg, body), sig='C03:%s:api-render-raises' % name, info={'body': body})
+    if not ctx.sym:
+        # what Connection.reader_async hands to Protocol.read_message is a memoryview, not bytes: the same octets decode to the same outcome
+        def as_memoryview():
+            try:
+                m2 = Message.unpack(mtype, memoryview(bytes(body)), neg)
+                force(m2, neg)
+                return 'decoded'
+            except Notify as n2:
+                return 'notify-%d/%d' % (int(n2.code), int(n2.subcode))
+            except Exception as e2:
+                return 'raises-' + type(e2).__name__
+        want = 'decoded' if out[0] == 'decoded' else 'notify-%d/%d' % (out[1], out[2]) if out[0] == 'notify' else 'raises-' + str(out[2])
+        ctx.witness_check('same-outcome-from-a-memoryview', lambda: as_memoryview() == want, sig='C03:%s:memoryview-body-decodes-differently' % name,
+                          info={'body': body, 'bytes': want})
     ctx.check('bounded-work', meter.steps <= limit, sig='C03:%s:work-not-linear' % name, info={'body': body, 'steps': meter.steps, 'limit': limit, 'top': meter.top(4)})
     return out
 
@@ -952,7 +966,18 @@ def attribute_plans():
             for t in sorted(set(PrefixSid.registered_srids) | {5, 6, 77}):
                 tlv_plans(plans, 'attr:40:tlv-%d' % t, lambda items, flag=flag: upd_attr(flag, 40, items), lambda F, L, t=t: [t] + F.near('tl', L, 2) + F.sym('v', L),
                           top=30, keep=10, repeat_group='attr:40:repeated')
+            # the nested SRv6 service TLVs (RFC 9252): service TLV > SID information sub-TLV > SID structure sub-sub-TLV of L octets
+            # (6 is the only legal size) and an unknown sub-sub-TLV of L octets - free octets never spell this nesting within the budget
+            for t in (5, 6):
+                for sst in (1, 9):
+                    plans.append(Plan('attr:40:tlv-%d:sid-information:sub-sub-%d' % (t, sst),
+                                      lambda F, L, flag=flag, t=t, sst=sst: upd_attr(flag, 40, b_srv6_nested(F, L, t, sst)), top=9, keep=10, group='attr:40:srv6-nested'))
     return plans
+
+
+def b_srv6_nested(F, L, t, sst):
+    inner = F.sym('rsv', 1) + [1] + be(21 + 3 + L, 2) + F.sym('sid', 21) + [sst] + be(L, 2) + F.sym('st', L)
+    return [t] + be(len(inner), 2) + inner
 
 
 _LS_FIXED = {}
